@@ -106,6 +106,7 @@ type Case struct {
 	Config  int   `json:"config"`
 	Letters []int `json:"letters"`
 	Prev    []int `json:"previous_batch_on_the_same_issuer_object,omitempty"`
+	Dup     bool  `json:"first_request_repeated_at_the_end,omitempty"` // the very same request (same object, same bytes) occurs twice in the batch
 }
 
 type worldT struct {
@@ -331,9 +332,25 @@ func run(c Case) (string, *mc.Viol) {
 	v := func(site, what string) (string, *mc.Viol) {
 		return site, &mc.Viol{Sig: site, What: fmt.Sprintf("config %v batch %s: %s", cfg, names(c.Letters), what)}
 	}
-	breq, err := batched.NewBasicClient().CreateTokenRequest(list)
+	if c.Dup && len(slots) > 0 {
+		slots = append(slots, slots[0])
+		list = append(list, slots[0].req)
+		c.Letters = append(append([]int{}, c.Letters...), c.Letters[0])
+	}
+	// ONE client object builds this batch and then another one before this one is put on the wire
+	cl := batched.NewBasicClient()
+	breq, err := cl.CreateTokenRequest(list)
 	if err != nil {
 		return v("client cannot build the batch", err.Error())
+	}
+	{
+		var decoy []tokens.TokenRequestWithDetails
+		for i := 0; i < len(list)+1; i++ {
+			decoy = append(decoy, w.makeSlot(t2A, 200+i, lbl).req)
+		}
+		if _, err := cl.CreateTokenRequest(decoy); err != nil {
+			return v("client cannot build a second batch", err.Error())
+		}
 	}
 	wire := append([]byte{}, breq.Marshal()...)
 	dec := new(batched.BatchedTokenRequest)
@@ -578,6 +595,12 @@ func main() {
 			cases = append(cases, Case{Config: 0, Letters: ls})
 		}
 	}
+	// the very same request twice in one batch
+	for _, ls := range [][]int{{t1A}, {t2A}, {t1A, t2A}, {t2A, t1Unknown, t1A}, {t1A, t1B, t2A, t2B}} {
+		for _, cfg := range []int{0, 4} {
+			cases = append(cases, Case{Config: cfg, Letters: ls, Dup: true})
+		}
+	}
 	// response lists of EXACTLY a given byte length (present type-2 entry = 259 bytes, absent = 1 byte):
 	// both sides of every varint class boundary of the list's length prefix
 	for _, target := range mc.Pick(r, []int{63, 64, 65, 16383, 16384, 16385}, []int{62, 63, 64, 65, 16382, 16383, 16384, 16385, 65535, 65536, 65537}) {
@@ -629,7 +652,7 @@ func main() {
 			}
 			out = fmt.Sprintf("ok:%d-present-%d-absent", p, a)
 		}
-		r.Case(fmt.Sprintf("%d-%v-%v", c.Config, c.Letters, c.Prev), true, out)
+		r.Case(fmt.Sprintf("%d-%v-%v-%v", c.Config, c.Letters, c.Prev, c.Dup), true, out)
 		if i%1200 == 5 {
 			r.Sample(map[string]any{"config": configs[c.Config], "batch": names(c.Letters), "outcome": out})
 		}
